@@ -1,7 +1,7 @@
 (* C02 -- Recovery never fabricates, corrupts or half-applies.
 
    ===== BEGIN block "L1 law" (one segment file) =====
-   Proofs in Seg/RecoverFacts.v, Seg/ChainFacts.v, Run/RunSegFacts.v.
+   Proofs in Seg/RecoverFacts.v, Seg/ChainFacts.v, Seg/FailFacts.v, Run/RunSegFacts.v.
 
    Setting.  A segment file holds n >= 0 committed batches (for n = 0 not even
    the header: the file is all zeros) followed by zeros.  The writer performs
@@ -120,6 +120,86 @@ Example C02_ex_recover :
   recover_state ex_info (c_img ex_s ++ ex_T ++ zeros 24) = Some (wst ex_info ex_s) /\
   recover_state ex_info (c_img ex_s ++ ex_new ++ zeros 24) = Some (wst ex_info (cstep ex_info ex_s ex_b)) /\
   w_index_start (wst ex_info (cstep ex_info ex_s ex_b)) = 88.
+Proof. vm_compute. repeat split; reflexivity. Qed.
+
+(* ---- leftovers of FAILED writes, power loss (Seg/FailFacts.v; the variant without
+   power loss and the refutation of the recovery algorithm before the repair "fix:
+   recovery verifies every commit frame" are in Props/C10.v, block "byte level") ----
+   frun info k0 ops: any history of successful, refused and failed (write or fsync)
+   appends / force-seals from init_empty on a file of zeros.  fs_sync: the file as of the
+   last successful fsync; fs_pw: the writes issued since (all of them belong to failed
+   operations); torn_writes: they reach the disk one after the other, each torn per
+   8-byte chunk over what is there.  fs_bs: the acknowledged batches; fs_pend: the
+   batches of the writes that failed since the last success.  Recovery of EVERY such
+   durable image returns the writer of the acknowledged batches, or of those plus ONE
+   batch of fs_pend whose bytes are completely on the disk: nothing of a batch that
+   failed before the last successful fsync, no part of a batch, no mix of two.  (The
+   batch need not be the LAST failed write: a power loss can keep an earlier unsynced
+   write whole and lose a later one, fx_T_a below.)  Assumed: no_stale_commit, i.e. no
+   commit frame the scan meets at or behind the recovered end stores the CRC of its
+   apparent range (decidable: no_stale_commitb; C10_byte_no_stale_commit_decidable). *)
+From RW Require Import Seg.RecoverOld Seg.FailFacts.
+
+Theorem seg_fail_recover_crash :
+  forall info k0 ops T,
+    hdr_wf info -> fops_wf ops ->
+    let st := frun info k0 ops in
+    fs_ok st = true -> torn_writes (fs_sync st) (fs_pw st) T ->
+    let s := cstate info (fs_bs st) in
+    let p := len (c_img s) in
+    (no_stale_commit T p -> recover_state info T = Some (wst info s)) /\
+    (forall d, In d (fs_pend st) -> on_disk T p (batch_write info s d) ->
+       no_stale_commit T (p + len (batch_write info s d)) ->
+       recover_state info T = Some (wst info (cstate info (fs_bs st ++ [d])))).
+Proof. exact fail_recover_crash. Qed.
+Print Assumptions seg_fail_recover_crash.
+
+(* one decidable hypothesis (crash_okb), one conclusion by cases *)
+Theorem seg_fail_recover_crash_cases :
+  forall info k0 ops T,
+    hdr_wf info -> fops_wf ops ->
+    let st := frun info k0 ops in
+    fs_ok st = true -> torn_writes (fs_sync st) (fs_pw st) T ->
+    crash_okb info st T = true ->
+    recover_state info T = Some (wst info (cstate info (fs_bs st))) \/
+    exists d, In d (fs_pend st) /\
+              on_disk T (len (image info (fs_bs st))) (batch_write info (cstate info (fs_bs st)) d) /\
+              recover_state info T = Some (wst info (cstate info (fs_bs st ++ [d]))).
+Proof. exact fail_recover_crash_cases. Qed.
+Print Assumptions seg_fail_recover_crash_cases.
+
+(* from any state of such a run (histories with RecoverTail rounds in between) *)
+Theorem seg_fail_recover_crash_from :
+  forall info st0 ops T,
+    hdr_wf info -> finv info st0 -> fops_wf ops ->
+    let st := frun_from st0 ops in
+    fs_ok st = true -> torn_writes (fs_sync st) (fs_pw st) T ->
+    let s := cstate info (fs_bs st) in
+    let p := len (c_img s) in
+    (no_stale_commit T p -> recover_state info T = Some (wst info s)) /\
+    (forall d, In d (fs_pend st) -> on_disk T p (batch_write info s d) ->
+       no_stale_commit T (p + len (batch_write info s d)) ->
+       recover_state info T = Some (wst info (cstate info (fs_bs st ++ [d])))).
+Proof. exact fail_recover_crash_from. Qed.
+Print Assumptions seg_fail_recover_crash_from.
+
+(* non-vacuity: history [e1] ok, a = [a2;a3;a4] fsync fails, b = [b2;b3] fsync fails,
+   then the power fails.  T_b: both writes complete; T_a: a complete, nothing of b;
+   T_mix: the first two chunks of b over a.  All three are torn_writes outcomes, the
+   hypothesis holds on each, and recovery returns [e1]+b, [e1]+a, [e1] alone *)
+Example C02_ex_fail_crash_torn :
+  torn_writes (fs_sync fx_st3) (fs_pw fx_st3) fx_T_b /\
+  torn_writes (fs_sync fx_st3) (fs_pw fx_st3) fx_T_a /\
+  torn_writes (fs_sync fx_st3) (fs_pw fx_st3) fx_T_mix.
+Proof. exact fx_crash_torn. Qed.
+Example C02_ex_fail_crash :
+  fs_ok fx_st3 = true /\ fs_bs fx_st3 = [([fx_e1], false)] /\
+  fs_pend fx_st3 = [([fx_a2; fx_a3; fx_a4], false); ([fx_b2; fx_b3], false)] /\
+  crash_okb fx_info fx_st3 fx_T_b = true /\ crash_okb fx_info fx_st3 fx_T_a = true /\
+  crash_okb fx_info fx_st3 fx_T_mix = true /\
+  recover_state fx_info fx_T_b = Some (wst fx_info (cstate fx_info [([fx_e1], false); ([fx_b2; fx_b3], false)])) /\
+  recover_state fx_info fx_T_a = Some (wst fx_info (cstate fx_info [([fx_e1], false); ([fx_a2; fx_a3; fx_a4], false)])) /\
+  recover_state fx_info fx_T_mix = Some (wst fx_info (cstate fx_info [([fx_e1], false)])).
 Proof. vm_compute. repeat split; reflexivity. Qed.
 
 (* ===== END block "L1 law" ===== *)
